@@ -35,6 +35,9 @@ void InputSplitBase::ResetPartition(unsigned rank, unsigned nsplit) {
   offset_end_ = std::min(nstep * (rank + 1), ntotal);
   offset_curr_ = offset_begin_;
   if (offset_begin_ == offset_end_) {
+    // empty partition: still drop the chunk and carry-over of the previous partition
+    tmp_chunk_.begin = tmp_chunk_.end = NULL;
+    overflow_.clear();
     return;
   }
   file_ptr_ = std::upper_bound(file_offset_.begin(), file_offset_.end(), offset_begin_)
@@ -64,6 +67,9 @@ void InputSplitBase::ResetPartition(unsigned rank, unsigned nsplit) {
 
 void InputSplitBase::BeforeFirst(void) {
   if (offset_begin_ >= offset_end_) {
+    // empty partition: nothing to seek to, but nothing buffered may survive either
+    tmp_chunk_.begin = tmp_chunk_.end = NULL;
+    overflow_.clear();
     return;
   }
   size_t fp = std::upper_bound(file_offset_.begin(), file_offset_.end(), offset_begin_)
